@@ -17,10 +17,15 @@ import (
 	"runtime"
 	"strconv"
 	"strings"
+	"sync"
+	"sync/atomic"
 	"testing"
 	"time"
 
 	bstore "github.com/ipfs/boxo/blockstore"
+	blocks "github.com/ipfs/go-block-format"
+	ds "github.com/ipfs/go-datastore"
+	dssync "github.com/ipfs/go-datastore/sync"
 
 	"verif/harness/vh"
 )
@@ -554,7 +559,68 @@ func runConcurrent(t *testing.T, e *vh.Env, cs *vh.Cases, st *vh.Stats) {
 		add(runConc(t, u, c, progs, randomChooser(e)), "conc/random")
 		n++
 	}
+	stressToctou(t, e, st)
 	st.Extra["concurrent"] = fmt.Sprintf("%d executed schedules (2-3 goroutines x <=4 calls over 2-3 keys, 2Q and/or Bloom layer, initial build and Rebuild "+
 		"running concurrently, enumeration errors); every datastore call parks before and after its effect; each schedule is replayed on the "+
 		"LTS model step by step in Coq and its history is checked for linearizability against the map by exhaustive search in Coq", n+1)
+}
+
+// stressToctou looks for finding C02-2 on the real code: a block is stored once
+// and never deleted; readers call Has in a loop while Rebuild runs in a loop.
+// bloomcache.hasCached reads `active` and then loads the filter pointer; a
+// Rebuild that deactivates and swaps in between makes the reader consult the
+// fresh, still empty filter and answer "missing".  The window has no datastore
+// call in it, so the scheduler above cannot hold a thread there; this part is
+// therefore a plain stress run (free-running goroutines) whose only possible
+// report is exactly that signature: Has == false for a stored, never deleted
+// key with no writer running.  It can only confirm the finding, never excuse
+// anything else: all other checks are deterministic.
+func stressToctou(t *testing.T, e *vh.Env, st *vh.Stats) {
+	ctx := context.Background()
+	base := bstore.NewBlockstore(dssync.MutexWrap(ds.NewMapDatastore()))
+	cbs, err := bstore.CachedBlockstore(ctx, base, bstore.CacheOpts{HasBloomFilterSize: 64, HasBloomFilterHashes: 7})
+	if err != nil {
+		t.Fatal(err)
+	}
+	bcs := cbs.(bstore.BloomCacheStatus)
+	if err := bcs.Wait(ctx); err != nil {
+		t.Fatal(err)
+	}
+	blk := blocks.NewBlock([]byte("c02 stress block"))
+	if err := cbs.Put(ctx, blk); err != nil {
+		t.Fatal(err)
+	}
+	var stop atomic.Bool
+	var missing, calls atomic.Int64
+	var wg sync.WaitGroup
+	for i := 0; i < 8; i++ {
+		wg.Add(1)
+		go func() {
+			defer wg.Done()
+			n := int64(0)
+			for !stop.Load() {
+				has, err := cbs.Has(ctx, blk.Cid())
+				n++
+				if err == nil && !has {
+					missing.Add(1)
+				}
+			}
+			calls.Add(n)
+		}()
+	}
+	rebuilds := e.Pick(20000, 200000)
+	for i := 0; i < rebuilds; i++ {
+		if err := bcs.Rebuild(ctx); err != nil {
+			t.Fatal(err)
+		}
+	}
+	stop.Store(true)
+	wg.Wait()
+	st.Count("stress/toctou-runs")
+	st.Extra["stress_toctou"] = fmt.Sprintf("%d Rebuilds against 8 goroutines calling Has on a stored, never deleted block (%d calls): %d answered false",
+		rebuilds, calls.Load(), missing.Load())
+	if missing.Load() > 0 {
+		st.Violate("Has answered false for a block whose Put had returned and which was never deleted, while Rebuild was running (no writer running)",
+			"C02-2", map[string]any{"kind": "stress-toctou", "rebuilds": rebuilds, "readers": 8, "missing": missing.Load()})
+	}
 }
